@@ -51,8 +51,70 @@ def load_library():
     lib.SignatureError = c.SignatureError
     lib.MetadataVerificationError = c.MetadataVerificationError
     lib.UnknownRoleError = c.UnknownRoleError
+    lib.modules = [getattr(lib, m) for m in ("common", "signing", "authentication", "root_signing",
+                                              "metadata_construction", "cli")]
+    _snapshot_state(lib)
     _LIB = lib
     return lib
+
+
+_BASE = {}
+
+
+def _snapshot_state(lib):
+    """Remember the library's module-level state right after import, so that every simulated run (and
+    every replay) starts from the same state even if the code under test keeps state between calls."""
+    import copy as _copy
+    import types
+    for mod in lib.modules:
+        names = dict(mod.__dict__)
+        conts = {}
+        defaults = {}
+        for k, v in names.items():
+            if isinstance(v, (dict, list, set)) and not k.startswith("__"):
+                try:
+                    conts[k] = _copy.deepcopy(v)
+                except Exception:
+                    pass
+            if isinstance(v, types.FunctionType) and v.__module__ == mod.__name__:
+                if v.__defaults__ and any(isinstance(d, (dict, list, set)) for d in v.__defaults__):
+                    defaults[k] = _copy.deepcopy(v.__defaults__)
+        _BASE[mod.__name__] = (names, conts, defaults)
+
+
+def reset_library_state():
+    lib = _LIB
+    if lib is None:
+        return
+    import copy as _copy
+    import types
+    for mod in lib.modules:
+        names, conts, defaults = _BASE[mod.__name__]
+        d = mod.__dict__
+        for k in [k for k in d if k not in names]:
+            del d[k]
+        for k, v in names.items():
+            if d.get(k, None) is not v:
+                d[k] = v
+            if k in conts:
+                fresh = _copy.deepcopy(conts[k])
+                if isinstance(v, dict):
+                    v.clear(); v.update(fresh)
+                elif isinstance(v, list):
+                    v[:] = fresh
+                elif isinstance(v, set):
+                    v.clear(); v.update(fresh)
+            if k in defaults:
+                v.__defaults__ = _copy.deepcopy(defaults[k])
+            cc = getattr(v, "cache_clear", None)
+            if cc is not None and callable(cc):
+                try:
+                    cc()
+                except Exception:
+                    pass
+            if isinstance(v, types.FunctionType) and v.__module__ == mod.__name__ and v.__dict__:
+                for a in [a for a in v.__dict__ if a != "__wrapped__"]:
+                    del v.__dict__[a]
 
 
 # ---------------------------------------------------------------------------------- stdout
